@@ -69,6 +69,12 @@ pub enum Wrap {
     Backquote,
     InFunction,
     Bang,
+    /// `x=$(echo "$(PIPELINE)")`
+    NestedCmdSubst,
+    /// `simcat 64 < <(PIPELINE)`
+    ProcSubstIn,
+    /// `PIPELINE > >(simcat 64)` followed by a barrier that waits for the reader
+    ProcSubstOut,
 }
 
 #[derive(Clone, Debug, Serialize, Deserialize)]
@@ -224,6 +230,16 @@ pub fn render(case: &Case) -> String {
         }
         Wrap::Backquote => {
             s.push_str(&format!("x=`{pipeline}`\nprobe cs\nprintf '%s|' \"$x\"\n"));
+        }
+        Wrap::NestedCmdSubst => {
+            s.push_str(&format!("x=$(echo \"$({pipeline})\")\nprobe ncs\nprintf '%s|' \"$x\"\n"));
+        }
+        Wrap::ProcSubstIn => {
+            s.push_str(&format!("simcat 64 < <({pipeline})\nprobe ps\n"));
+        }
+        Wrap::ProcSubstOut => {
+            // the reader is not waited for by the shell: `simres` samples at quiescence
+            s.push_str(&format!("{pipeline} > >(simcat 64)\nsimres barrier\nprobe ps\n"));
         }
     }
     s
@@ -540,9 +556,12 @@ impl C11 {
                     Wrap::CmdSubst { trailing_newlines: rng.below(4) as u32 }
                 }
             }
-            _ => match rng.below(8) {
+            _ => match rng.below(12) {
                 0 => Wrap::Bang,
                 1 => Wrap::InFunction,
+                2 => Wrap::NestedCmdSubst,
+                3 => Wrap::ProcSubstIn,
+                4 => Wrap::ProcSubstOut,
                 _ => Wrap::None,
             },
         };
@@ -646,7 +665,7 @@ pub fn judge(case: &Case) -> Verdict {
 
     // 2. integrity of the data reaching the final sink
     let expected_out: Vec<u8> = match &case.wrap {
-        Wrap::CmdSubst { .. } | Wrap::Backquote => {
+        Wrap::CmdSubst { .. } | Wrap::Backquote | Wrap::NestedCmdSubst => {
             let mut o = m.output.clone();
             while o.last() == Some(&b'\n') {
                 o.pop();
@@ -670,7 +689,7 @@ pub fn judge(case: &Case) -> Verdict {
 
     // 3. statuses
     let probe = r.events.iter().find_map(|e| match &e.kind {
-        EventKind::Probe { tag, status, extra, .. } if tag == "st" || tag == "cs" || tag == "fn" => Some((tag.clone(), *status, extra.clone())),
+        EventKind::Probe { tag, status, extra, .. } if tag == "st" || tag == "cs" || tag == "fn" || tag == "ncs" || tag == "ps" => Some((tag.clone(), *status, extra.clone())),
         _ => None,
     });
     let Some((tag, status, extra)) = probe else {
@@ -697,6 +716,8 @@ pub fn judge(case: &Case) -> Verdict {
             v.violation = Some(viol("C11/status/overall", format!("$?={status}, PIPESTATUS={ps:?}, pipefail={}, bang={}; want {want}; script={script:?}", case.pipefail, case.wrap == Wrap::Bang), None));
             return v;
         }
+    } else if tag == "ncs" || tag == "ps" {
+        // the status seen here is that of the outer `echo` / `simcat` / barrier: not judged
     } else {
         let allowed = allowed_overall(&m.allowed, case.pipefail);
         if !allowed.contains(&status) {
